@@ -65,6 +65,14 @@ def gen_var(rng, name, depth=0):
     p = rng.choice(PTRS)
     if rng.random() < 0.06:
         t, p = "void", rng.choice(["*", "*", "**", "* const", "*&", "* const *"])      # void only behind a pointer
+    elif rng.random() < 0.08:
+        # the words of a multi-word built-in type in any order, possibly with a word repeated: C++ accepts every order of
+        # e.g. {unsigned, long, long, int}; what Shroud accepts must denote that type, what it cannot resolve it rejects
+        ws = rng.choice([["unsigned", "long", "long"], ["long", "long", "int"], ["unsigned", "long", "long", "int"], ["unsigned", "long", "int"],
+                         ["unsigned", "short", "int"], ["long", "int"], ["signed", "long", "long"], ["long", "double"], ["unsigned", "char"]])
+        ws = list(ws)
+        rng.shuffle(ws)
+        t = " ".join(ws)
     s = cv + t + post + " " + p
     native = t in NATIVE
     r = rng.random()
